@@ -108,6 +108,10 @@ fn check(id: &'static str, tier: Tier) -> i32 {
             let mut ctx = Ctx::new(id, tier, "fault_enumeration");
             props::c17::check(&mut ctx)
         }
+        "C20" => {
+            let mut ctx = Ctx::new(id, tier, "exploration");
+            props::c20::check(&mut ctx)
+        }
         "C19" => {
             let mut ctx = Ctx::new(id, tier, "exploration");
             props::c19::check(&mut ctx)
@@ -131,6 +135,7 @@ fn replay(id: &'static str, path: &str) -> i32 {
         "C10" => props::c10::replay(path),
         "C09" => props::c09::replay(path),
         "C19" => props::c19::replay(path),
+        "C20" => props::c20::replay(path),
         "C17" => props::c17::replay(path),
         "C18" => props::c18::replay(path),
         "C13" => props::c13::replay(path),
